@@ -12,7 +12,7 @@ ID = "C05"
 LEVEL = "exploration"
 TECHNIQUE = "Hypothesis-generated ragged plate sets compared with a loop-by-loop float64 reference estimator (differential) plus metamorphic re-groupings/permutations"
 RULE = (
-    "n=3..9 posterior samples with all C(n,3) triples enumerated, 1..6 plates of 1..8 experiments (ragged; size-1 and single-plate cases "
+    "n=3..32 posterior samples (32 = largest full enumeration under the default budget of 5000) with all C(n,3) triples enumerated, 1..6 plates of 1..8 experiments (ragged; size-1 and single-plate cases "
     "forced), means in [-30,30] (occasionally 1e3), variances 10^U(-3,3), symmetric non-negative zero-diagonal distance matrices with exact "
     "zeros, distance_factor in {1,.5,2}; entry points: heteroscedastic, homoscedastic, vectorized (harness-built NaN padding) and "
     "GaussianDBALScorer.score on real plates with shipped and a harness-defined heteroscedastic Theta, max_chunk 1..7; plus re-grouping, "
@@ -27,7 +27,7 @@ ASSUMPTIONS = [
 
 def budgets(tier):
     if tier == "quick":
-        return {"examples": 1500, "max_s": 80, "shrink_s": 20, "shards": 1}
+        return {"examples": 700, "max_s": 80, "shrink_s": 20, "shards": 1}
     return {"examples": 12000, "max_s": 700, "shrink_s": 90, "shards": 16}
 
 
@@ -39,6 +39,10 @@ _logvar = st.floats(min_value=-3, max_value=3, allow_nan=False)
 def _dist(draw, n):
     vals = {}
     allzero = draw(st.integers(0, 15)) == 0
+    _v = st.one_of(st.sampled_from([0.0, 1.0, 1e-12, 5.0]), st.floats(min_value=0.0, max_value=10.0, allow_nan=False))
+    if n > 9 and not allzero:  # pool-based for many samples (keeps the drawn data small)
+        pool = [draw(_v) for _ in range(8)]
+        return {"%d,%d" % (i, j): pool[(i * 31 + j * 17) % 8] for i in range(n) for j in range(i)}
     for i in range(n):
         for j in range(i):
             if allzero:
@@ -51,15 +55,23 @@ def _dist(draw, n):
 
 @st.composite
 def _raw(draw):
-    n = draw(st.integers(3, 9))
-    n_pl = draw(st.sampled_from([1, 1, 2, 3, 4, 6]))
+    # up to 32 samples: C(32,3) = 4960 is the largest full enumeration under the default budget of 5000 triples
+    n = draw(st.sampled_from([3, 3, 4, 4, 5, 6, 7, 8, 9, 12, 19, 20, 21, 25, 32]))
+    big = n > 9
+    n_pl = draw(st.sampled_from([1, 2, 3] if big else [1, 1, 2, 3, 4, 6]))
     plates = []
     for p in range(n_pl):
-        e = draw(st.sampled_from([1, 1, 2, 3, 5, 8]))
-        means = [[draw(_mean) for _ in range(e)] for _ in range(n)]
-        lv = [[draw(_logvar) for _ in range(e)] for _ in range(n)]
+        e = draw(st.sampled_from([1, 2, 3] if big else [1, 1, 2, 3, 5, 8]))
+        if big:  # draw a small pool and index into it (keeps generation cheap for 32 x e values)
+            pool_m = [draw(_mean) for _ in range(6)]
+            pool_v = [draw(_logvar) for _ in range(4)]
+            means = [[pool_m[(3 * i + 5 * j + p) % 6] + 0.01 * i for j in range(e)] for i in range(n)]
+            lv = [[pool_v[(i + 2 * j) % 4] for j in range(e)] for i in range(n)]
+        else:
+            means = [[draw(_mean) for _ in range(e)] for _ in range(n)]
+            lv = [[draw(_logvar) for _ in range(e)] for _ in range(n)]
         plates.append({"means": means, "logvar": lv})
-    homo = [[draw(_logvar) for _ in range(n)] for _ in range(n_pl)]
+    homo = [[draw(_logvar) for _ in range(n)] for _ in range(n_pl)] if not big else [[float((i * 7 + q) % 5 - 2) for i in range(n)] for q in range(n_pl)]
     return {
         "kind": "raw",
         "n": n,
